@@ -42,6 +42,7 @@ type journal struct {
 	// counters and faults
 	resetOps   int         // datastore calls made under the reset's context so far
 	failReset  int         // the failReset-th such call fails (0: none)
+	hangReset  int         // the hangReset-th such call blocks until its context ends (a slow datastore that honours ctx)
 	gates      map[int]func() // called before the n-th reset call
 	failPlain  int         // the failPlain-th call not under the reset context fails (0: none); counted from armPlain
 	plainOps   int
@@ -58,9 +59,14 @@ func (j *journal) tick(ctx context.Context) error {
 		n := j.resetOps
 		g := j.gates[n]
 		fail := j.failReset == n
+		hang := j.hangReset == n
 		j.mu.Unlock()
 		if g != nil {
 			g()
+		}
+		if hang {
+			<-ctx.Done()
+			return ctx.Err()
 		}
 		if fail {
 			return errInjected
@@ -524,6 +530,7 @@ func (w *ksWorld) reset(c *vu.Case, line int, e map[string]string) string {
 	w.j.mu.Lock()
 	w.j.resetOps = 0
 	w.j.failReset, _ = strconv.Atoi(e["failat"])
+	w.j.hangReset, _ = strconv.Atoi(e["hangat"])
 	w.j.gates = map[int]func(){}
 	startIdx := len(w.j.entries)
 	w.j.mu.Unlock()
@@ -543,7 +550,11 @@ func (w *ksWorld) reset(c *vu.Case, line int, e map[string]string) string {
 			x := strings.SplitN(t, ":", 2)
 			g, _ := strconv.Atoi(x[0])
 			keys := x[1]
+			prevGate := w.j.gates[g]
 			w.j.gates[g] = func() {
+				if prevGate != nil {
+					prevGate()
+				}
 				pr := &putRec{keys: keys, acked: -1}
 				pmu.Lock()
 				puts = append(puts, pr)
@@ -607,6 +618,7 @@ func (w *ksWorld) reset(c *vu.Case, line int, e map[string]string) string {
 	w.j.mu.Lock()
 	retIdx := len(w.j.entries)
 	w.j.failReset = 0
+	w.j.hangReset = 0
 	w.j.gates = map[int]func(){}
 	nops := w.j.resetOps
 	w.j.mu.Unlock()
@@ -702,6 +714,22 @@ var _ = time.Second
 func TestVerifC20(t *testing.T) {
 	vu.Run(t, vu.Config{Prop: "C20", QuickN: 900, ThoroughN: 20000,
 		Gen: func(r *vu.RNG, c *vu.Case) bool {
+			if c.Idx%15 == 14 {
+				// Close while a put is parked on a full reset buffer and the reset itself is inside a datastore call
+				// the hanging call is one the reset goroutine makes itself (calls made on the worker, during opStart and
+				// opCleanup, would keep the worker — and so Close — waiting for as long as they last)
+				mode := []string{"shared", "factory"}[r.Intn(2)]
+				g := r.Range(4, 7)
+				if mode == "factory" {
+					g = r.Range(1, 4)
+				}
+				c.In = append(c.In, fmt.Sprintf("ks mode=%s prefixbits=8 batch=100 bufcap=1", mode))
+				c.In = append(c.In, "put keys=1,2,3")
+				c.In = append(c.In, fmt.Sprintf("reset keys=4,5,6,7 puts=%d:8;%d:9;%d:10 scan=0 closeat=%d hangat=%d", g, g, g, g, g))
+				c.In = append(c.In, "size")
+				c.Tag("nontrivial")
+				return true
+			}
 			mode := []string{"plain", "shared", "factory", "shared"}[r.Intn(4)]
 			c.In = append(c.In, fmt.Sprintf("ks mode=%s prefixbits=%d batch=%d bufcap=%d", mode, []int{8, 8, 16}[r.Intn(3)], []int{1, 2, 3, 100}[r.Intn(4)], []int{1, 2, 100}[r.Intn(3)]))
 			ids := func(n int) string {
